@@ -1,30 +1,51 @@
-"""Replay for pool.Worker.workloop on the real code: a real Worker with
-scripted receive / put callables.  The termination signal is simulated the
-way billiard's own handler (common._shutdown_cleanup) acts: it sets
-common._should_have_exited[0] and raises SystemExit inside the running task.
+"""Replay / bounded search for pool.Worker.workloop on the real code: a real
+Worker object with scripted receive / put / syn callables, run in-process.
 
-Obligations replayed: protocol.* (what the worker put / ran / took after what).
+The termination signal is simulated the way billiard's own handler
+(common._shutdown_cleanup) acts: it sets common._should_have_exited[0] and
+raises SystemExit at the point of delivery (inside the task, or inside the
+send of the result).
+
+Search space (bounded; this is the replay side, the proof is pyvc's): every
+sequence of up to 3 jobs, each one of
+    ok           runs and returns
+    raise        the task raises ValueError
+    unpicklable  the first put of its result raises (result cannot be encoded)
+    refused      the parent answers the ACK with NACK (job cancelled)
+    term         the termination signal arrives inside the task
+    term_send    the termination signal arrives while the result is being sent
+with quota None / 1 / 2 / 3, with and without the ACK handshake.  For every
+run the clauses of the worker protocol (C03), of the quota (C09) and of prompt
+termination (C05/C08) are evaluated on the recorded events.
 """
+import itertools
 import json
 import sys
 
 import billiard.common as common
 import billiard.pool as pool
 
+KINDS = ('ok', 'raise', 'unpicklable', 'refused', 'term', 'term_send')
 
-def run(scenario):
-    """-> (events, outcome) ; events: ('take',) ('ack', job) ('run', job) ('ready', job, ok) ..."""
+
+def run(kinds, maxtasks, handshake):
+    """-> (events, outcome, ensured)"""
     events = []
+    ensured = []
     common._should_have_exited[0] = False
-    tasks = list(scenario['tasks'])
+    tasks = [(100 + n, k) for n, k in enumerate(kinds)]
+    kind_of = dict(tasks)
 
-    def task_fn(kind):
+    def signal():
+        events.append(('TERM',))
+        common._should_have_exited[0] = True
+        raise SystemExit(-241)
+
+    def task_fn(job, kind):
         def f():
-            events.append(('run', kind))
+            events.append(('run', job))
             if kind == 'term':
-                events.append(('TERM',))
-                common._should_have_exited[0] = True
-                raise SystemExit(-241)
+                signal()
             if kind == 'raise':
                 raise ValueError('boom')
             return 1
@@ -33,55 +54,122 @@ def run(scenario):
     def wait_for_job():
         events.append(('take',))
         if not tasks:
-            raise SystemExit(0)
+            raise SystemExit(0)           # the queue is closed: the worker is told to stop
         job, kind = tasks.pop(0)
-        return (pool.TASK, (job, None, task_fn(kind), (), {}))
+        return (pool.TASK, (job, None, task_fn(job, kind), (), {}))
+
+    def wait_for_syn():
+        job = [e[1] for e in events if e[0] == 'ack'][-1]
+        events.append(('syn', job))
+        return (pool.NACK if kind_of[job] == 'refused' else pool.ACK, (job,))
+
+    first_ready = set()
 
     class Q:
         def put(self, msg):
             tag, body = msg
-            events.append(('ack' if tag == pool.ACK else 'ready', body[0]))
+            job = body[0]
+            if tag == pool.ACK:
+                events.append(('ack', job))
+                return
+            if job not in first_ready:
+                first_ready.add(job)
+                if kind_of[job] == 'unpicklable':
+                    events.append(('put_failed', job))
+                    raise ValueError('cannot pickle result')
+                if kind_of[job] == 'term_send':
+                    signal()
+            events.append(('ready', job, body[2][0]))
 
     w = pool.Worker.__new__(pool.Worker)
-    w.outq, w.inq, w.synq = Q(), None, None
+    w.outq, w.inq, w.synq = Q(), None, (object() if handshake else None)
     w.inqW_fd = w.synqW_fd = None
-    w.maxtasks = scenario.get('maxtasks')
+    w.maxtasks = maxtasks
     w.max_memory_per_child = None
     w.on_ready_counter = None
-    w.wait_for_job, w.wait_for_syn = wait_for_job, None
+    w.wait_for_job, w.wait_for_syn = wait_for_job, (wait_for_syn if handshake else None)
+    w._ensure_messages_consumed = lambda completed: ensured.append(completed)
     try:
         rc = w.workloop(pid=4242)
         outcome = ('return', rc)
     except BaseException as e:       # noqa
-        outcome = ('raise', repr(e))
+        outcome = ('raise', type(e).__name__)
     finally:
         common._should_have_exited[0] = False
-    return events, outcome
+    return events, outcome, ensured
+
+
+def judge(kinds, maxtasks, handshake, events, outcome, ensured):
+    bad = []
+    ran = [e[1] for e in events if e[0] == 'run']
+    acks = [e[1] for e in events if e[0] == 'ack']
+    readies = [e[1] for e in events if e[0] == 'ready']
+    kind_of = {100 + n: k for n, k in enumerate(kinds)}
+    # --- termination: nothing after the signal
+    if ('TERM',) in events:
+        after = events[events.index(('TERM',)) + 1:]
+        if any(e[0] in ('ready', 'ack', 'take', 'run') for e in after):
+            bad.append('after the termination signal the worker still did %r' % (after,))
+        if outcome[0] != 'raise':
+            bad.append('the termination signal did not end the loop: %r' % (outcome,))
+    # --- protocol: ack, then (if not refused) run once, then exactly one ready
+    for job in acks:
+        refused = handshake and kind_of[job] == 'refused'
+        if refused and job in ran:
+            bad.append('job %d was refused by the parent but was run' % job)
+        if ran.count(job) > 1 or readies.count(job) > 1:
+            bad.append('job %d was run %d times and answered %d times' % (job, ran.count(job), readies.count(job)))
+        interrupted = kind_of[job] in ('term', 'term_send')
+        if job in ran and not interrupted and readies.count(job) != 1:
+            bad.append('job %d was run but %d results were sent' % (job, readies.count(job)))
+        if job in ran and events.index(('ack', job)) > events.index(('run', job)):
+            bad.append('job %d was run before it was acknowledged' % job)
+    for job in ran:
+        if job not in acks:
+            bad.append('job %d was run without an ACK' % job)
+    # --- quota
+    if maxtasks is not None:
+        if len(ran) > maxtasks:
+            bad.append('executed %d jobs with a quota of %d' % (len(ran), maxtasks))
+        if outcome == ('return', pool.EX_RECYCLE) and len(readies) != maxtasks:
+            bad.append('left with the recycle status after %d results, quota %d' % (len(readies), maxtasks))
+        wanted = [k for k in kinds if k != 'refused' or not handshake]
+        if ('TERM',) not in events and len(wanted) >= maxtasks and outcome != ('return', pool.EX_RECYCLE):
+            bad.append('quota %d reached but the worker did not leave with the recycle status: %r' % (maxtasks, outcome))
+    elif outcome[0] == 'return':
+        bad.append('a worker without quota left the loop normally: %r' % (outcome,))
+    # --- results consumed before exit: checked once, with the number of results sent
+    if len(ensured) != 1:
+        bad.append('_ensure_messages_consumed called %d times' % len(ensured))
+    elif ensured[0] != len(readies):
+        bad.append('sent %d READY messages but waits for %d to be consumed before exiting' % (len(readies), ensured[0]))
+    return bad
 
 
 def main():
     data = json.load(open(sys.argv[1]))
-    ob = data['obligation']
-    print('replay of %s / %s' % (data['function'], ob))
-    scenario = {'tasks': [(1, 'term'), (2, 'ok')]}
-    events, outcome = run(scenario)
-    print('  scenario: job 1 is interrupted by the termination signal, job 2 is queued behind it')
-    print('  events: %s' % (events,))
-    print('  outcome: %s' % (outcome,))
-    i = events.index(('TERM',)) if ('TERM',) in events else None
-    after = events[i + 1:] if i is not None else []
-    bad = None
-    if any(e[0] == 'ready' for e in after) or any(e[0] == 'ack' for e in after):
-        bad = 'the worker went on sending messages after the termination signal: %s' % (after,)
-    if any(e[0] == 'take' for e in after):
-        bad = (bad + '; ' if bad else '') + 'it took a further job after the termination signal'
-    if 'termination' in ob or 'exit_flag' in ob or ob.startswith('loop0.preserve'):
-        if bad:
-            print('  violation on real code: ' + bad)
-            print('REPRODUCED on real code')
-            sys.exit(1)
-    print('not reproduced')
-    sys.exit(0)
+    print('replay of %s / %s' % (data['function'], data['obligation']))
+    found = 0
+    runs = 0
+    for n in range(0, 4):
+        for kinds in itertools.product(KINDS, repeat=n):
+            for maxtasks in (None, 1, 2, 3):
+                for handshake in (False, True):
+                    if not handshake and 'refused' in kinds:
+                        continue
+                    runs += 1
+                    events, outcome, ensured = run(kinds, maxtasks, handshake)
+                    bad = judge(kinds, maxtasks, handshake, events, outcome, ensured)
+                    if bad:
+                        found += 1
+                        if found <= 3:
+                            print('  scenario: jobs=%r quota=%r handshake=%r' % (kinds, maxtasks, handshake))
+                            print('    events: %r -> %r' % (events, outcome))
+                            for b in bad:
+                                print('    violation on real code: ' + b)
+    print('  %d scenarios run on the real code, %d violate the worker contract' % (runs, found))
+    print('REPRODUCED on real code' if found else 'not reproduced')
+    sys.exit(1 if found else 0)
 
 
 main()
